@@ -17,7 +17,7 @@ import (
 func init() {
 	vfRegister(&vfProp{
 		id:        "C11",
-		classes:   []string{"os", "os-alloc", "rs", "rs-alloc", "rs-park", "rs-noclose", "rs-closeerr"},
+		classes:   []string{"os", "os-alloc", "rs", "rs-alloc", "rs-park", "rs-noclose", "rs-closeerr", "rs-listerr", "rs-srvclose"},
 		gen:       c11Gen,
 		exec:      c11Exec,
 		enumerate: c11Enumerate,
@@ -123,6 +123,16 @@ func c11Base(class string, seed uint64) *vfScenario {
 	case "rs-noclose":
 		sc.Cfg["kind"] = 1
 		sc.Cfg["noterr"] = 1
+	case "rs-listerr":
+		// some ListAt calls of directory listers fail with an ordinary error: the lister stays the handle's, to be
+		// closed once when the handle goes
+		sc.Cfg["kind"] = 1
+		for i := 0; i < 1+rng.IntN(2); i++ {
+			sc.Faults = append(sc.Faults, vfFault{K: "listerr", At: int64(rng.IntN(5))})
+		}
+	case "rs-srvclose":
+		// the session is ended from the server's side (RequestServer.Close) with whatever handles are open
+		sc.Cfg["kind"], sc.Cfg["srvclose"] = 1, 1
 	case "rs-closeerr":
 		// some handler objects fail in Close(): the handle must die all the same, and be closed once
 		sc.Cfg["kind"] = 1
@@ -237,6 +247,9 @@ func c11Exec(r *vfRun) {
 	}
 	closeErrs := false
 	for _, f := range sc.Faults {
+		if f.K == "listerr" && s.fs != nil {
+			s.fs.planFault("ListAt", int(f.At), errors.New("listing failed: stale handle"))
+		}
 		if f.K == "closeerr" && s.fs != nil {
 			s.fs.planFault("Close", int(f.At), errors.New("close failed: quota exceeded"))
 			closeErrs = true
@@ -271,6 +284,13 @@ func c11Exec(r *vfRun) {
 	for _, q := range wc.reqs {
 		off += len(q.encode())
 		gold.bounds = append(gold.bounds, off)
+	}
+	if sc.cfg("srvclose", 0) != 0 && s.srv.rs != nil {
+		rs := s.srv.rs
+		tk := vfSpawnTask(sim, 77, 1, func(int) { rs.Close() })
+		sim.run(tk.finished)
+		sim.run(func() bool { d, _ := s.srv.served(); return d })
+		sim.count("fault.session_closed_by_server")
 	}
 	s.finish()
 	if sim.failed() {
